@@ -17,25 +17,28 @@ VARIABLES hasDl, bound, cutSeen, established, l
 tvars == <<hasDl, bound, cutSeen, established, l>>
 Trace == ndJsonDeserialize("trace.ndjson")
 Is(e) == l <= Len(Trace) /\ Trace[l].event = e
-TInit == hasDl = FALSE /\ bound = 0 /\ cutSeen = FALSE /\ established = FALSE /\ l = 1 /\ TLCSet(1, 0)
-TReset == Is("Reset") /\ l' = l + 1 /\ hasDl' = FALSE /\ bound' = 0 /\ cutSeen' = FALSE /\ established' = FALSE
-TStart == Is("Start") /\ l' = l + 1 /\ hasDl' = Trace[l].has_deadline /\ bound' = Trace[l].bound /\ cutSeen' = FALSE /\ established' = FALSE
+TInit == hasDl = FALSE /\ bound = 0 /\ cutSeen = "no" /\ established = FALSE /\ l = 1 /\ TLCSet(1, 0)
+TReset == Is("Reset") /\ l' = l + 1 /\ hasDl' = FALSE /\ bound' = 0 /\ cutSeen' = "no" /\ established' = FALSE
+TStart == Is("Start") /\ l' = l + 1 /\ hasDl' = Trace[l].has_deadline /\ bound' = Trace[l].bound /\ cutSeen' = "no" /\ established' = FALSE
 \* handshakes run under a deadline that is armed when they start
 TFirstRead == Is("FirstRead") /\ l' = l + 1 /\ (hasDl => Trace[l].armed) /\ UNCHANGED <<hasDl, bound, cutSeen, established>>
 TFeed == Is("Feed") /\ l' = l + 1 /\ UNCHANGED <<hasDl, bound, cutSeen, established>>
-TCut == Is("Cut") /\ l' = l + 1 /\ cutSeen' = TRUE /\ UNCHANGED <<hasDl, bound, established>>
+\* (hs_returned: the handshake call had already returned when the harness cut - a cut exactly behind the last handshake
+\* byte races with the return; it then counts as a cut of the established connection)
+TCut == /\ Is("Cut") /\ l' = l + 1 /\ cutSeen' = (IF Trace[l].hs_returned THEN "late" ELSE "early")
+        /\ UNCHANGED <<hasDl, bound, established>>
 \* the call in progress returns; after a cut it returns an ERROR; success removes the deadline; never a panic;
 \* never more than the bound consumed without having validated
 THsRet == /\ Is("HsRet") /\ l' = l + 1
           /\ LET e == Trace[l] IN
                /\ ~e.panicked
-               /\ (cutSeen => ~e.ok)
+               /\ (cutSeen = "early" => ~e.ok)
                /\ (e.ok => (~hasDl \/ e.cleared))
                /\ (~e.ok => e.consumed <= bound)
           /\ established' = Trace[l].ok /\ UNCHANGED <<hasDl, bound, cutSeen>>
 \* wedged: never acceptable
 TAppRead == /\ Is("AppRead") /\ l' = l + 1 /\ established /\ ~Trace[l].panicked
-            /\ (cutSeen => Trace[l].err # "")                 \* after the cut has been consumed the call returns an error
+            /\ (cutSeen # "no" => Trace[l].err # "")                 \* after the cut has been consumed the call returns an error
             /\ UNCHANGED <<hasDl, bound, cutSeen, established>>
 TAppWrite == Is("AppWrite") /\ l' = l + 1 /\ established /\ ~Trace[l].panicked /\ UNCHANGED <<hasDl, bound, cutSeen, established>>
 \* a small bounded amount of buffered data per connection
